@@ -2546,4 +2546,49 @@ theorem geomKymo_regular (w : Wave) (lead k P dead lines tail n : Nat) (hk : 0 <
   conv => lhs; rw [hsub]
   exact take_geomPixels k hk _ _ hle
 
+/-! ## scan frames as an index function -/
+
+theorem take_drop_map_range (g : Nat → Int) (N s n : Nat) (h : s + n ≤ N) :
+    (((List.range N).map g).drop s).take n = (List.range n).map fun b => g (s + b) := by
+  apply List.ext_getElem?
+  intro i
+  by_cases hi : i < n
+  · rw [List.getElem?_take_of_lt hi, List.getElem?_drop, List.getElem?_map, List.getElem?_map,
+      List.getElem?_range (by omega), List.getElem?_range hi]
+    rfl
+  · rw [List.getElem?_eq_none (by simp only [List.length_take]; omega),
+      List.getElem?_eq_none (by simp; omega)]
+
+theorem scanFrames_eq (P L : Nat) (flip : Bool) (pix : List Int) :
+    scanFrames P L flip pix = (List.range (numBlocks pix.length (L * P))).map fun f =>
+      if flip then (List.range P).map fun a => (List.range L).map fun b => pix.getD (f * (L * P) + (b * P + a)) 0
+      else (List.range L).map fun a => (List.range P).map fun b => pix.getD (f * (L * P) + (a * P + b)) 0 := by
+  unfold scanFrames
+  rw [padRows_eq, List.map_map]
+  apply List.map_congr_left
+  intro f _
+  simp only [Function.comp]
+  have hlines : takeRows P L ((List.range (L * P)).map fun r => pix.getD (f * (L * P) + r) 0)
+      = (List.range L).map fun a => (List.range P).map fun b => pix.getD (f * (L * P) + (a * P + b)) 0 := by
+    rw [takeRows_eq_map_range]
+    apply List.map_congr_left
+    intro a ha
+    have ha := List.mem_range.mp ha
+    rw [take_drop_map_range _ _ _ _ (by
+      have : (a + 1) * P ≤ L * P := Nat.mul_le_mul_right _ (by omega)
+      rw [Nat.add_mul] at this; omega)]
+  rw [hlines]
+  cases flip
+  · simp
+  · simp only [if_true]
+    unfold transposeN
+    apply List.map_congr_left
+    intro a ha
+    have ha := List.mem_range.mp ha
+    rw [List.map_map]
+    apply List.map_congr_left
+    intro b _
+    simp only [Function.comp]
+    rw [getD_map_range _ _ _ ha]
+
 end Verif.C03
